@@ -1398,6 +1398,7 @@ func (x *Exec) havocLoop(st *State, fr *Frame, hdr *ssa.BasicBlock) {
 					continue
 				}
 				nw := st.X.fresh(n, pre.S)
+				st.X.wfArray(n, nw)
 				if !whole {
 					r := Sym("r!lh", SInt)
 					conds := []*T{Select(allocPre, r)}
@@ -1424,6 +1425,7 @@ func (x *Exec) havocLoop(st *State, fr *Frame, hdr *ssa.BasicBlock) {
 				}
 				st.HeapS[n] = ms.sorts[n]
 				st.Heap[n] = st.X.fresh(n, ms.sorts[n])
+				st.X.wfArray(n, st.Heap[n])
 				delete(st.AsOf, n)
 				st.AsOf[n] = st.Heap["Alloc"]
 			}
@@ -1637,17 +1639,23 @@ func (x *Exec) bindLoopVars(env *Env, st *State, fr *Frame, hdr *ssa.BasicBlock)
 			}
 		}
 	}
-	for _, b := range fr.fn.Blocks {
-		if !fr.loops.body[hdr][b] {
+	// map-range state of this loop or, for loops nested inside a map range, of the enclosing one
+	for _, h := range fr.loops.headers {
+		if !fr.loops.body[h][hdr] {
 			continue
 		}
-		for _, ins := range b.Instrs {
-			if nx, ok := ins.(*ssa.Next); ok && b == hdr {
+		for _, ins := range h.Instrs {
+			if nx, ok := ins.(*ssa.Next); ok {
 				rg := nx.Iter.(*ssa.Range)
 				if v, ok := st.Ghost[rangeGhost(rg)]; ok {
-					env.vars["visited"] = v
-					if d, ok := st.Ghost[rangeGhost(rg)+"_dom0"]; ok {
-						env.vars["dom0"] = d
+					if _, isMap := rg.X.Type().Underlying().(*types.Map); !isMap {
+						continue
+					}
+					if _, have := env.vars["visited"]; !have || h == hdr {
+						env.vars["visited"] = v
+						if d, ok := st.Ghost[rangeGhost(rg)+"_dom0"]; ok {
+							env.vars["dom0"] = d
+						}
 					}
 				}
 			}
